@@ -481,12 +481,17 @@ def rule_extent_pairing(ctx: Ctx):
 def rule_extent_writers(ctx: Ctx):
     """the full span is the extent the metadata was read from: it may be set only where metadata is read (the add_* helpers) or at construction"""
     repo = ctx.repo
-    allowed = {"helpers.add_post_citation", "helpers.add_defendant", "helpers.add_pre_citation", "helpers.add_law_metadata", "helpers.add_journal_metadata"}
+    # each end of the full span belongs to the scan on that side: the forward scans (which also store year, court, extra, parenthetical from the same
+    # match) own the end, the backward scans (party names, antecedent) own the start.  A backward scan that pulls the *end* in leaves what the
+    # forward scan stored outside the span
+    owners = {"full_span_end": {"helpers.add_post_citation", "helpers.add_law_metadata", "helpers.add_journal_metadata"},
+              "full_span_start": {"helpers.add_defendant", "helpers.add_pre_citation"}}
     n = 0
     for qual, mod, fn in repo.all_funcs():
         for x in walk_local(fn):
             if isinstance(x, ast.Attribute) and isinstance(x.ctx, ast.Store) and x.attr in ("full_span_start", "full_span_end"):
                 n += 1
+                allowed = owners[x.attr]
                 ctx.ob("R-C17-2", f"{qual}/writes:{x.attr}", qual in allowed,
                        "the full span is moved after the metadata was read: values already stored (year, extra, parenthetical, parties) may then lie outside it",
                        node=x, mod=mod, nontrivial=qual not in allowed)
